@@ -354,7 +354,12 @@ def run_cases(run: Run, cs):
                     want_ids = [st["before_ids"][q] for q in kept]
                     # a model whose weight sits within rounding of a threshold may legitimately fall either way
                     if want_ids != st["ids"] or closed != st["closed"]:
-                        near = any(abs(float(x) - float(thr)) < 1e-9 for x in w for thr in (c["thr"], c["pct"]))
+                        data0 = step_data(c, st["before_ids"], st["k"])
+                        pl = [p_ * likelihood(d_, c["ydim"]) for p_, d_ in zip(st["w_before"], data0)]
+                        tot = sum(pl)
+                        post = [x / tot for x in pl] if tot > 0 else []
+                        # (the pre-prune posterior, and the posterior renormalised over any subset, may sit on a threshold)
+                        near = any(abs(x - float(thr)) < 1e-9 for x in post + [float(y) for y in w] for thr in (c["thr"], c["pct"]))
                         if near:
                             run.boundary_skips += 1
                         else:
